@@ -131,17 +131,20 @@ func (d *DAGMutex[T]) unregisterMutexes(ids ...T) (mutexes []*StarvingMutex) {
 }
 
 func (d *DAGMutex[T]) unregisterMutex(id T) (mutex *StarvingMutex) {
-	if count, _ := d.consumerCounter.Get(id); count == 1 {
-		d.consumerCounter.Delete(id)
-		d.mutexes.Delete(id)
-
-		return nil
-	}
-
 	mutex, mutexExists := d.mutexes.Get(id)
 	if !mutexExists {
 		panic(ierrors.Errorf("called Unlock or RUnlock too often for entity with %v", id))
 	}
+
+	// the last consumer drops the entity, but still unlocks the mutex it held, so that an unlock in the wrong
+	// mode panics instead of silently discarding somebody else's lock.
+	if count, _ := d.consumerCounter.Get(id); count == 1 {
+		d.consumerCounter.Delete(id)
+		d.mutexes.Delete(id)
+
+		return mutex
+	}
+
 	count, _ := d.consumerCounter.Get(id)
 	d.consumerCounter.Set(id, count-1)
 
